@@ -606,7 +606,18 @@ impl Env {
         };
         let server = self.peers[i].server.clone();
         let honest = server.blocks_proof(&sim.chain, &req);
-        let muts = crate::verif::mutate::proof_message_mutants(&honest);
+        let mut muts = crate::verif::mutate::proof_message_mutants(&honest);
+        // a complete, genuine answer -- for another last header than the requested one (its parent, or the leaf
+        // of another branch): data under a last state the client did not ask about
+        if let Some(x) = other_last(&sim.chain, &req.last_hash(), rng) {
+            let req2 = req.clone().as_builder().last_hash(sim.chain.blocks[x].header.hash()).build();
+            let mut s2 = server.clone();
+            s2.tip = x;
+            let m2 = s2.blocks_proof(&sim.chain, &req2);
+            for _ in 0..3 {
+                muts.push(("other-last-with-data".to_string(), m2.clone()));
+            }
+        }
         if muts.is_empty() {
             return false;
         }
@@ -627,7 +638,16 @@ impl Env {
         };
         let server = self.peers[i].server.clone();
         let honest = server.txs_proof(&sim.chain, &req);
-        let muts = crate::verif::mutate::proof_message_mutants(&honest);
+        let mut muts = crate::verif::mutate::proof_message_mutants(&honest);
+        if let Some(x) = other_last(&sim.chain, &req.last_hash(), rng) {
+            let req2 = req.clone().as_builder().last_hash(sim.chain.blocks[x].header.hash()).build();
+            let mut s2 = server.clone();
+            s2.tip = x;
+            let m2 = s2.txs_proof(&sim.chain, &req2);
+            for _ in 0..3 {
+                muts.push(("other-last-with-data".to_string(), m2.clone()));
+            }
+        }
         if muts.is_empty() {
             return false;
         }
@@ -648,6 +668,20 @@ impl Env {
         let args = json!({"p": pname(p), "b": block + 1, "body": "forged"});
         sim.step("Block", args, |c| c.deliver(Proto::Sync, p, m.as_bytes()));
     }
+}
+
+/// Another block than the one with hash `last` to answer a proof request for: the leaf of another branch when
+/// there is one, else the parent.  None when `last` is unknown or has no such block.
+pub fn other_last(c: &crate::verif::world::SimChain, last: &packed::Byte32, rng: &mut rand::rngs::StdRng) -> Option<usize> {
+    use rand::Rng;
+    let id = c.id_of(last)?;
+    let others: Vec<usize> = (0..c.blocks.len())
+        .filter(|b| *b != id && c.children_of(*b).is_empty() && !c.is_ancestor(id, *b) && !c.is_ancestor(*b, id) && c.blocks[*b].pow && c.blocks[*b].root)
+        .collect();
+    if !others.is_empty() && rng.gen_bool(0.6) {
+        return Some(others[rng.gen_range(0..others.len())]);
+    }
+    c.blocks[id].parent.filter(|p| c.blocks[*p].num >= 1)
 }
 
 // ---------------------------------------------------------------------------------------------
